@@ -158,9 +158,6 @@ def replay_case(ctx, kinds, key_kind, chain_ix):
     if got_hash != want_hash:
         ok = False
         ctx.mismatch('C23:hash', 'hash() = %s, Blake2b-256(forged || raw signature) in base58 "o" = %s (%s, %s)' % (got_hash, want_hash, list(kinds), key_kind), case)
-    if signed.binary_payload() != forged + raw:
-        ok = False
-        ctx.mismatch('C23:binary-payload', 'binary_payload() is not forged bytes || raw signature', case)
     return ok
 
 
